@@ -154,7 +154,8 @@ func runC11(p *core.Program, r *core.Report) {
 			var nameW, typeW, tagW ast.Node
 			for _, c := range core.Calls(loop.Body, true) {
 				cn := core.CalleeName(info, c)
-				if !strings.HasPrefix(cn, "fmt.Fprintf") && !strings.HasPrefix(cn, "(*bytes.Buffer).Write") {
+				// any write into the text being built (bytes.Buffer, strings.Builder, an io.Writer)
+				if !strings.HasPrefix(cn, "fmt.Fprint") && cn != "io.WriteString" && !strings.HasSuffix(cn, ").WriteString") && !strings.HasSuffix(cn, ").Write") && !strings.HasSuffix(cn, ").WriteByte") && !strings.HasSuffix(cn, ").WriteRune") {
 					continue
 				}
 				for _, a := range c.Args {
